@@ -50,15 +50,23 @@ META = {
     "the geo-registered array was built (wrap_xr, 1-d coordinates dropped = GeoTransform only, CRS assigned for the first time / "
     "re-assigned under the default or a custom coordinate name / on the Dataset, a window sliced out of a larger array; north-up and "
     "rotated non-square grids) judged against the harness' own GeoBox and CRS definition, nodata=None spelled out, and decoy numbers "
-    "in encoding['_FillValue'] / attrs['_FillValue'].  Known finding K28 (repaired on branch fix2-C15): write_cog_layers lets an explicit "
-    "nodata=None override attrs['nodata'] (to_cog(xx, overviews=[..], nodata=None) loses the nodata); that input point is judged by "
-    "the oracle only.  Observations: assign_crs on an image with a 1-pixel side drops the only source of the pixel size (geobox None, "
+    "in encoding['_FillValue'] / attrs['_FillValue'].  Finding F65 (repaired by 4344a79, found here): write_cog_layers let an explicit "
+    "nodata=None override attrs['nodata'] (to_cog(xx, overviews=[..], nodata=None) lost the nodata); the model follows the repaired "
+    "code (as-found witness explicit_none_overrides_attrs_asfound_cex, positive theorem layers_nodata_resolution) and the point is "
+    "part of the correspondence.  Observations: assign_crs on an image with a 1-pixel side drops the only source of the pixel size (geobox None, "
     "the writers refuse loudly; C09's subject, not generated); write_cog reads attrs['nodata'] only (documented) while xx.odc.nodata and "
-    "the dask writer also honour attrs['_FillValue'].  NOT mirrored in the Lean model (inventory of the anchor files): what GDAL does "
+    "the dask writer also honour attrs['_FillValue'].  Props/C15C09.lean composes with C09's model of the accessor (xr_coords / _mk_crs_coord / wrap_xr / assign_crs / "
+    "_extract_transform / the GeoTransform fall-back): for every provenance C09 models (wrapped; wrapped then sliced or computed on; "
+    "registered later with assign_crs; axis coordinates dropped) the recovered georeference is the original GeoBox's, and every dataset "
+    "_write_cog opens has its size and carries tokens that denote its affine and CRS (wrapped_array_written_with_its_geobox: no "
+    "hypothesis about the accessor in between).  intermediate_compression dicts with dataset keys (the point excluded by "
+    "mem_copy_agrees_with_file_copy) were run on the real code: file and memory destinations still agree (GDAL's copy takes the dataset "
+    "description from the temporary image on both routes) — pinned each run, key mem-and-file-destinations-differ.  "
+    "NOT mirrored in the Lean model (inventory of the anchor files): what GDAL does "
     "with the calls (encoding, overview resampling, copy_src_overviews, decoding); resampling_s2rio for names that are attributes but "
-    "not members of the Resampling enum; _xr_interop.py xr_coords / _mk_crs_coord / assign_crs / _extract_geo_transform (how the "
-    "GeoBox and CRS are attached to and recovered from the DataArray: judged by the provenance round trips; K22); intermediate_compression "
-    "dicts that carry keys other than compression settings (e.g. a named parameter of _write_cog).",
+    "not members of the Resampling enum; the text parsing inside _extract_geo_transform and pyproj's CRS handling inside "
+    "_mk_crs_coord (C09 models the parsed values; judged here by the provenance round trips; K22); GCP geoboxes as writer input; "
+    "intermediate_compression dicts that carry a NAMED parameter of _write_cog.",
     "technique": "Lean 4 proof over hand model of the decision core + differential correspondence + GDAL round trip",
     "design_ref": "DESIGN.md §4 C15",
 }
@@ -555,7 +563,7 @@ def one_case(cfg, workdir, tag, shared=None):
         kw["nodata"] = spell(cfg["kw_nodata"], cfg.get("nd_spell_kw", "py"), cfg["dtype"])
     elif cfg.get("kw_none_explicit"):
         kw["nodata"] = None  # the documented default spelled out (wrappers forward their own nodata=None): same as not given
-    # explicit None on the supplied-overviews path: known finding while unrepaired (write_cog_layers lets it override attrs)
+    # explicit None on the supplied-overviews path: finding F65 (write_cog_layers let it override attrs; repaired by 4344a79)
     none_on_layers = "nodata" in kw and kw["nodata"] is None and (cfg["entry"] == "write_cog_layers" or cfg["ovr_mode"] == "supplied")
     ydim = 1 if layout == "SYX" else 0
     layers = [xx]
@@ -703,8 +711,7 @@ def one_case(cfg, workdir, tag, shared=None):
             # nodata as resolved by the writer vs the model's resolution order (spellings as actually passed)
             m_entry = "write_cog_layers" if entry == "write_cog_layers" else ("write_cog_ovrs" if ovr_mode == "supplied" else
                                                                             ("to_cog" if entry in ("to_cog", "acc_to_cog") else "write_cog"))
-            if not none_on_layers:
-                facts["nodata_line"] = f"c15 nodata {m_entry} {num_s(kw.get('nodata'))} {num_s(xx.attrs.get('nodata'))}"
+            facts["nodata_line"] = f"c15 nodata {m_entry} {num_s(kw.get('nodata'))} {num_s(xx.attrs.get('nodata'))}"
             facts["nodata"] = "N" if f.nodata is None else ("nan" if math.isnan(f.nodata) else frac_s(float(f.nodata)))
             if all(abs(v) < 2.0**40 and float(v).as_integer_ratio()[1] <= 2**30 for v in tuple(gbox.transform)[:6]):
                 a_ = gbox.transform
@@ -996,6 +1003,30 @@ def run(R: Run):
         for i, cfg in enumerate(fixed):
             run_case(R, cfg, workdir, f"k{i}")
             done += 1
+
+        # ---- pin: an intermediate_compression dict that carries dataset keys besides compression settings (the point excluded by
+        # theorem mem_copy_agrees_with_file_copy: there the option dictionaries of the memory and the file copy differ).  GDAL's
+        # copy takes the description of the dataset from the temporary image on BOTH routes, so the two destinations must
+        # still agree with each other (what the misused option does to the file is the caller's business and not judged)
+        def ic_pin(ic):
+            import rasterio  # pylint: disable=import-outside-toplevel
+
+            gb_ = GeoBox((64, 48), Affine(10, 0, 0, 0, -10, 0), "epsg:3857")
+            xx_ = wrap_xr((np.arange(64 * 48) % 200).astype("int16").reshape(64, 48), gb_, nodata=-9999)
+            p_ = os.path.join(workdir, "icpin.tif")
+            RIO.write_cog(xx_, p_, overview_levels=[2], blocksize=32, intermediate_compression=dict(ic), overwrite=True)
+            bb_ = RIO.to_cog(xx_, overview_levels=[2], blocksize=32, intermediate_compression=dict(ic))
+            out_ = []
+            with rasterio.open(p_) as f1, rasterio.MemoryFile(bb_) as mf, mf.open() as f2:
+                for f_ in (f1, f2):
+                    out_.append((f_.nodata, f_.dtypes, f_.shape, tuple(f_.transform)[:6], str(f_.crs), f_.read().tobytes(), f_.overviews(1)))
+            os.unlink(p_)
+            return "" if out_[0] == out_[1] else f"file {out_[0][:5]} {out_[0][6]} vs memory {out_[1][:5]} {out_[1][6]}"
+
+        for ic_ in ({"compress": "lzw", "nodata": 7}, {"compress": "deflate", "dtype": "float32"}, {"nodata": 7}):
+            msg = guarded(lambda: ic_pin(ic_))
+            R.oracle(msg == "", "mem-and-file-destinations-differ", {"fn": "write_cog / to_cog", "intermediate_compression": ic_, "overview_levels": [2]},
+                     f"same call to a file and to memory gives different datasets: {msg}", sig="rt|ic-with-dataset-keys")
 
         # ---- provenance of the geo-registered array x grid kind x destination, every run: built by wrap_xr, 1-d coordinates
         # dropped (GeoTransform only), CRS assigned for the first time / re-assigned (default and custom coordinate name, on
